@@ -150,6 +150,9 @@ pub struct RecInner {
     /// mutations additionally return Pending once AFTER they landed (the caller can be cancelled
     /// between the backend effect and observing its result)
     gate_after: AtomicBool,
+    /// post-call yield for reads (get / get_ranges / list_with_delimiter): the response is in the
+    /// caller's hands but the caller has not acted on it yet (read-then-act windows, cache fills)
+    gate_after_reads: AtomicBool,
     /// number of calls that went through the gate (progress signal for schedulers)
     pub gate_passes: AtomicU64,
     record_reads: AtomicBool,
@@ -258,6 +261,7 @@ impl RecStore {
             fault_fired: AtomicBool::new(false),
             gate: AtomicBool::new(false),
             gate_after: AtomicBool::new(false),
+            gate_after_reads: AtomicBool::new(false),
             gate_passes: AtomicU64::new(0),
             record_reads: AtomicBool::new(true),
         }))
@@ -299,6 +303,11 @@ impl RecStore {
     /// Post-call yield for mutations (see `gate_after`).
     pub fn set_gate_after(&self, on: bool) {
         self.0.gate_after.store(on, Ordering::SeqCst);
+    }
+    /// Post-call yield for reads: a task can be held between receiving a read's response and
+    /// acting on it while other tasks run (the window of stale cache fills and read-then-write).
+    pub fn set_gate_after_reads(&self, on: bool) {
+        self.0.gate_after_reads.store(on, Ordering::SeqCst);
     }
     pub fn set_record_reads(&self, on: bool) {
         self.0.record_reads.store(on, Ordering::SeqCst);
@@ -415,6 +424,12 @@ impl RecStore {
 
     async fn gate_post(&self) {
         if self.0.gate_after.load(Ordering::SeqCst) {
+            yield_once().await;
+        }
+    }
+
+    async fn gate_post_read(&self) {
+        if self.0.gate_after_reads.load(Ordering::SeqCst) {
             yield_once().await;
         }
     }
@@ -636,6 +651,7 @@ impl ObjectStore for RecStore {
             None,
             None,
         );
+        self.gate_post_read().await;
         r
     }
 
@@ -658,6 +674,7 @@ impl ObjectStore for RecStore {
             None,
             None,
         );
+        self.gate_post_read().await;
         r
     }
 
